@@ -188,6 +188,18 @@ pub fn run(op: &str, args: &[&str]) -> Option<String> {
                 Some(o.join(" "))
             }
         }
+        "extra_from_len" => {
+            if args.len() != 1 {
+                return None;
+            }
+            let n: usize = args[0].parse().ok()?;
+            if n > 40_000_000 {
+                return None;
+            }
+            let e = ExtraField(vec![SubField::Nonce(vec![0u8; n])]);
+            let raw = RawExtraField::from(e);
+            Some(format!("OK {}", raw.0.len()))
+        }
         "subfield_dec" => {
             if args.len() != 1 {
                 return None;
